@@ -645,7 +645,7 @@ func c26Prefill() []*hydrapb.KeyValuePair {
 		{Key: "k3", BytesVal: append([]byte{}, c26Body...), ExpiredAt: timestamppb.New(time.Unix(978307200, 0))},
 		{Key: "k4", Uint32Slice: []uint32{1, 2, 3}},
 		{Key: "k5", Float64Val: &f, ExpiredAt: timestamppb.New(time.Unix(4102444800, 0))},
-		{Key: "k6", BytesVal: append([]byte{}, c26VecBody...), CreatedAt: timestamppb.New(time.Unix(978307201, 0))},
+		{Key: "k6", BytesVal: append([]byte{}, c26VecBody...), CreatedAt: timestamppb.New(time.Unix(978307201, 0)), ExpiredAt: timestamppb.New(time.Unix(978307202, 0))},
 	}
 }
 
